@@ -161,6 +161,44 @@ def run(ctx) -> None:
                          f"`{offending[0].text()}` suspends the coroutine between the version check and the write of the new "
                          f"method and no asyncio lock covers both: two saves based on the same version both pass the check "
                          f"and both are accepted (lost update)", p + p2[1:])
+    # ---- R31e: the lock guarding an engine must be the same object for every save of that engine
+    lock_attrs = set()
+    for fn in (entry, f):
+        d = local_single_defs(fn)
+        for n in walk_no_nested(fn.node):
+            if isinstance(n, ast.AsyncWith):
+                for it in n.items:
+                    e2 = expand_local(it.context_expr, d)
+                    for x in ast.walk(e2):
+                        if isinstance(x, ast.Attribute) and isinstance(x.value, ast.Name) and fn.node.args.args \
+                                and x.value.id == fn.node.args.args[0].arg:
+                            lock_attrs.add(x.attr)
+    ctx.rule("R31e", "the per-engine lock object is never removed or replaced")
+    for la in sorted(lock_attrs):
+        removed = []
+        for fn in prog.iter_functions():
+            for n in walk_no_nested(fn.node):
+                hit = None
+                if isinstance(n, ast.Call) and isinstance(n.func, ast.Attribute) and n.func.attr in ("pop", "clear", "popitem") \
+                        and isinstance(n.func.value, ast.Attribute) and n.func.value.attr == la:
+                    hit = n
+                if isinstance(n, ast.Delete) and any(isinstance(t, ast.Subscript) and isinstance(t.value, ast.Attribute)
+                                                     and t.value.attr == la for t in n.targets):
+                    hit = n
+                if isinstance(n, ast.Assign) and fn.name != "__init__" and any(
+                        (isinstance(t, ast.Attribute) and t.attr == la) or
+                        (isinstance(t, ast.Subscript) and isinstance(t.value, ast.Attribute) and t.value.attr == la) for t in n.targets):
+                    hit = n
+                if hit is not None:
+                    removed.append((fn, hit))
+        inst = f"lock table self.{la}: entries are only ever added (setdefault), never removed or replaced"
+        if not removed:
+            ctx.ok("R31e", inst)
+        for fn, hit in removed:
+            ctx.fail("R31e", fn, hit, f"{fn.short}: {norm(hit)[:80]}",
+                     f"the lock table self.{la} loses or replaces an entry: a coroutine already waiting on (or about to take) the "
+                     f"old lock and a later save that creates a fresh lock are no longer serialised, so two saves based on the same "
+                     f"version can both pass the version check")
     # ---- R31b
     for n in [x for x in g.nodes if _has_await(x) and any(call_attr(c) == "rpc_call" for c in x.calls())] + writes:
         facts = facts_at(g, n, defs)
